@@ -37,6 +37,18 @@ func schedConfig(s *Sched) simrt.Config {
 // runSim runs body as the root goroutine of a simulated run inside a fresh
 // synctest bubble.
 func runSim(t *testing.T, s *Sched, body func()) (out simOutcome) {
+	// The bubble runs in a helper goroutine: under the race detector the testing package fails a test that
+	// reported a race and synctest.Test then calls t.FailNow (runtime.Goexit), which must not end the worker loop.
+	done := make(chan struct{})
+	go func() {
+		defer close(done)
+		runSimBubble(t, s, body, &out)
+	}()
+	<-done
+	return out
+}
+
+func runSimBubble(t *testing.T, s *Sched, body func(), out *simOutcome) {
 	defer func() {
 		if r := recover(); r != nil {
 			out.bubblePanic = fmt.Sprint(r)
@@ -68,7 +80,6 @@ func runSim(t *testing.T, s *Sched, body func()) (out simOutcome) {
 		out.stats = simrt.Stop()
 		out.escaped = simrt.EscapedPanic()
 	})
-	return out
 }
 
 // benignBubbleEnd reports whether a bubble panic is just synctest noticing
@@ -153,6 +164,12 @@ func (s *simServer) stop(timeout time.Duration) bool {
 // seededReader is a deterministic byte stream (xorshift) for uuid.SetRand.
 type seededReader struct{ x uint64 }
 
+//
+// uuid.NewString is safe for concurrent use with its real (crypto) source; this stand-in is only ever entered
+// by the goroutine that holds the run token, and it is kept out of the race detector's sight so that it neither
+// reports itself nor orders the goroutines that happen to draw ids.
+//
+//go:norace
 func (r *seededReader) Read(p []byte) (int, error) {
 	for i := range p {
 		r.x ^= r.x << 13
